@@ -627,6 +627,10 @@ func (g *Gen) inlineOK(f *ssa.Function, ct *Contract) bool {
 	if f.Pkg == nil || !strings.HasPrefix(f.Pkg.Pkg.Path(), "github.com/ontio/ontology") {
 		return false
 	}
+	// a small loop-free helper of the SAME package as the function under proof is seen through even when it
+	// calls other functions (those calls are then handled at their own call sites): a helper extracted by a
+	// refactoring does not turn into an unknown callee
+	samePkg := g.top != nil && g.top.Pkg != nil && f.Pkg == g.top.Pkg && g.depth < 3
 	n := 0
 	for _, b := range f.Blocks {
 		n += len(b.Instrs)
@@ -634,8 +638,15 @@ func (g *Gen) inlineOK(f *ssa.Function, ct *Contract) bool {
 			switch c := in.(type) {
 			case ssa.CallInstruction:
 				if _, isB := c.Common().Value.(*ssa.Builtin); !isB {
-					return false
+					if !samePkg {
+						return false
+					}
+					if sc := c.Common().StaticCallee(); sc == f {
+						return false // directly recursive
+					}
 				}
+			case *ssa.Go, *ssa.Defer, *ssa.Select:
+				return false
 			}
 		}
 		for _, s := range b.Succs {
@@ -643,6 +654,9 @@ func (g *Gen) inlineOK(f *ssa.Function, ct *Contract) bool {
 				return false // loops need contracts
 			}
 		}
+	}
+	if samePkg {
+		return n <= 40
 	}
 	return n <= 14
 }
